@@ -86,6 +86,8 @@ def rule_compared(body, pair_local):
 
 def run(ctx):
     facts = ctx.bin
+    from .finder import rule_statement_local_state
+    rule_statement_local_state(ctx, facts, "C14-R3")
     # ---- R1 constants ---------------------------------------------------------------
     for fn, text in (("check_for_ignore_directive", "breadlog:ignore"), ("check_for_no_kvp_directive", "breadlog:no-kvp")):
         b = facts.one(r"code_parser::%s$" % fn)
@@ -351,7 +353,7 @@ def run(ctx):
                             ctx.check(P.bb not in r, "C14-R4", "ignore-skips", "an ignore directive skips the statement (no push in that iteration)", f.where(bb))
                             ctx.check(P.bb in cfg.reach(f, [ft], avoid=[H.bb]), "C14-R4", "no-ignore-continues", "without the directive the statement is processed", f.where(bb))
             # arguments
-            for (C, what, span_of) in ((I, "ignore", "macro name"), (N, "no-kvp", "macro arguments")):
+            for (C, what, span_of) in ((I, "ignore", "macro name"), (N, "no-kvp", "macro name")):
                 r_code = call_chain(f, C.args[0])
                 r_pos = call_chain(f, C.args[1])
                 r_rx = call_chain(f, C.args[2])
@@ -362,7 +364,7 @@ def run(ctx):
                 if pos_names[:2] == ["start", "as_span"]:
                     pair = pure_local(f, r_pos[0][1].args[0])
                     variants = rule_compared(f, pair)
-                    want = "macro_name" if what == "ignore" else "macro_args"
+                    want = "macro_name"   # both directives are looked up from the line on which the statement starts
                     ctx.check(variants == {want}, "C14-R4", "arg-pair|" + what,
                               "that pair is the statement's %s (pair checked against Rule::%s)" % (span_of, ",".join(sorted(variants)) or "?"), C.where())
                 ctx.check(any(re.search(r"find::|get_or_init$", x.name) for x in r_rx[0]), "C14-R4", "arg-regex|" + what, "%s check uses the finder's comment regex (a static of `find`)" % what, C.where())
